@@ -138,7 +138,7 @@ pub fn world_b_general(property: &str, scenario: &str, seed: u64, run: u64, sc: 
         // steer the handshake nonces (= initial frame ids, and packet ids in their low 20 bits)
         // to within a few thousand of the wrap-around
         for e in plan.endpoints.iter_mut() {
-            let n = 0u32.wrapping_sub(r.range(0, 6000) as u32);
+            let n = 0u32.wrapping_sub(r.range(1, 6000) as u32);
             e.nonces = (0..8).map(|k| n.wrapping_add(k * 7919)).collect();
         }
     }
@@ -355,7 +355,7 @@ pub fn world_b_handshake(property: &str, scenario: &str, seed: u64, run: u64, th
     }
     if r.chance(0.3) {
         for e in plan.endpoints.iter_mut() {
-            let n = 0u32.wrapping_sub(r.range(0, 6000) as u32);
+            let n = 0u32.wrapping_sub(r.range(1, 6000) as u32);
             e.nonces = (0..16).map(|k| n.wrapping_add(k * 7919)).collect();
         }
     }
@@ -437,6 +437,23 @@ pub fn world_b_handshake(property: &str, scenario: &str, seed: u64, run: u64, th
     }
     let cad = Cadence { period_us: r.range(5_000, 60_000), jitter: 0.3, stall_p: 0.0, stall_max_us: 0, flush_after_step_p: 0.2 };
     cad.steps(&mut r, &mut plan, 0, 0, horizon, 12_000, false);
+    // stray handshake frames that carry a client's own address (stale duplicates, forgeries):
+    // requests of a foreign version, with other nonces, with limits the server would refuse, and
+    // stray ACKs, during the handshake and during the connection's life
+    if !clean {
+        for &c in topo.clients.iter() {
+            for _ in 0..r.range(0, 3) {
+                let t = r.range(0, horizon * 2 / 3);
+                let bytes = match r.below(4) {
+                    0 => enc_syn(*r.pick(&[0u8, 2, 4, 255]), r.u32(), 2_000_000, 1000, 1_000_000, 1472),
+                    1 => enc_syn(3, r.u32(), 2_000_000, 1000, 1_000_000, 1472),
+                    2 => enc_syn(3, r.u32(), 2_000_000, 2_000_000_000, 10, 1472),
+                    _ => enc_hs_ack(r.u32()),
+                };
+                plan.push(t, 0x8000_0002, Op::Inject { to: 0, from: c, bytes, twin: false });
+            }
+        }
+    }
     // wrong-version and refused SYNs from a raw socket (observed on the wire only)
     let raw = topo.raws[0];
     for _ in 0..r.range(0, 4) {
